@@ -96,7 +96,9 @@ fn oracle_docs(rep: &mut Report, ex: &mut Expat, rng: &mut Rng, n: usize) {
         let b = gen_box(rng, shape == "circle").f();
         let (attr_text, lines) = author_text(rng);
         let carrier = *rng.pick(&["attr", "content", "cdata", "text-element"]);
-        let loc = *rng.pick(&TEXT_LOCS);
+        // nine named locations, or a position along an edge (percentage, length from the start, from the end)
+        let edge_loc = if rng.chance(1, 4) { Some(format!("{}:{}", rng.pick(&["t", "b", "l", "r"]), rng.pick(&["25%", "75%", "10%", "1", "1.5", "-1", "-0.5", "0%", "100%"]))) } else { None };
+        let loc: &str = match &edge_loc { Some(l) => l.as_str(), None => *rng.pick(&TEXT_LOCS) };
         let off = rng.range(0, 6) as f64 / 2.0;
         let outside_cls = rng.chance(1, 5);
         let mut attrs = String::new();
@@ -179,10 +181,16 @@ fn oracle_docs(rep: &mut Report, ex: &mut Expat, rng: &mut Rng, n: usize) {
         let sgn = if outside { -1.0 } else { 1.0 };
         let mut ex_x = px;
         let mut ex_y = py;
-        if loc.contains('t') { ex_y += sgn * off; }
-        if loc.contains('b') && loc != "b" || loc == "b" { if loc.starts_with('b') { ex_y -= sgn * off; } }
-        if loc.ends_with('l') && loc != "l" || loc == "l" { ex_x += sgn * off; }
-        if loc.ends_with('r') && loc != "r" || loc == "r" { ex_x -= sgn * off; }
+        if let Some(l) = &edge_loc {
+            // along the shape's own edge; the offset moves it perpendicular to that edge only
+            match &l[..1] { "t" => ex_y += sgn * off, "b" => ex_y -= sgn * off, "l" => ex_x += sgn * off, _ => ex_x -= sgn * off }
+            st.tally("text-loc=edge");
+        } else {
+            if loc.contains('t') { ex_y += sgn * off; }
+            if loc.contains('b') && loc != "b" || loc == "b" { if loc.starts_with('b') { ex_y -= sgn * off; } }
+            if loc.ends_with('l') && loc != "l" || loc == "l" { ex_x += sgn * off; }
+            if loc.ends_with('r') && loc != "r" || loc == "r" { ex_x -= sgn * off; }
+        }
         ex_x += tdx;
         ex_y += tdy;
         let gx = text_attrs.iter().find(|(k, _)| k == "x").and_then(|(_, v)| v.parse::<f64>().ok());
